@@ -1,10 +1,61 @@
 import TempestVerif.Drv.Util
-/- line-protocol handlers of property C19 (stub: no commands yet) -/
+import TempestVerif.Model.Student
+/- line-protocol handlers of property C19 (Student-t fit) -/
 namespace Drv.C19
-open Drv
+open Drv Model.Student
+
+/-- row-major `n × d` list → `d` columns of length `n` -/
+def columns {α : Type} (d n : Nat) (flat : Array α) : Option (List (List α)) :=
+  if flat.size != n * d then none else
+  (List.range d).mapM fun a => (List.range n).mapM fun i => flat[i * d + a]?
+
+def parseNu? {α : Type} [Codec α] (s : String) : Option (Option α) :=
+  if s == "inf" then some none else (Codec.parse (α := α) s).map some
+
+def showStop : Stop → String
+  | .converged => "conv" | .maxIter => "maxit" | .infNu => "inf" | .tapeEnd => "tape" | .notPD => "notpd"
+
+/-- `mvst.F d=<dim> n=<points> data=<n·d scalars, row-major> nus=<scalars or inf> tol=<scalar> maxit=<nat>`
+    →  `<stop> <k> <k·d scalars: mu iterates> <k·d² scalars: Sigma iterates, row-major> <final nu | inf>` -/
+def mvst (α : Type) [Sc α] [Codec α] (args : List (String × String)) : String :=
+  match (getArg args "d").bind String.toNat?, (getArg args "n").bind String.toNat?,
+        (getArg args "data").bind (parseList? (Codec.parse (α := α))),
+        (getArg args "nus").bind (parseList? (parseNu? (α := α))),
+        (getArg args "tol").bind (Codec.parse (α := α)), (getArg args "maxit").bind String.toNat? with
+  | some d, some n, some data, some nus, some tol, some maxit =>
+    match columns d n data.toArray with
+    | none => "bad-op"
+    | some X =>
+      match fit tol maxit n X nus with
+      | none => "bad-op"
+      | some r =>
+        let mus := r.iterates.flatMap (·.mu)
+        let sigs := r.iterates.flatMap (fun s => s.sigma.flatten)
+        let nu := match r.nu with | none => "inf" | some x => Codec.shw x
+        s!"{showStop r.stop} {r.iterates.length} {showList Codec.shw mus} {showList Codec.shw sigs} {nu}"
+  | _, _, _, _, _, _ => "bad-op"
+
+/-- `dof.F tag=fin|inf|nan x=<scalar> fb=<scalar>` → `fin <scalar>` | `inf` | `nan` (the `dof` after the fallback) -/
+def dof (α : Type) [Sc α] [Codec α] (args : List (String × String)) : String :=
+  match getArg args "tag", (getArg args "x").bind (Codec.parse (α := α)),
+        (getArg args "fb").bind (Codec.parse (α := α)) with
+  | some tag, some x, some fb =>
+    let t : Option (Dof α) := match tag with
+      | "fin" => some (.fin x) | "inf" => some .inf | "nan" => some .nan | _ => none
+    match t with
+    | none => "bad-op"
+    | some t => match applyFallback fb t with
+      | .fin y => s!"fin {Codec.shw y}"
+      | .inf => "inf"
+      | .nan => "nan"
+  | _, _, _ => "bad-op"
 
 def handle (cmd : String) (args : List (String × String)) : Option String :=
   match cmd with
+  | "mvst.F" => some (mvst Float args)
+  | "mvst.Q" => some (mvst Rat args)
+  | "dof.F" => some (dof Float args)
+  | "dof.Q" => some (dof Rat args)
   | _ => none
 
 end Drv.C19
